@@ -327,6 +327,22 @@ impl Coll for Types {
     }
     fn touch(&mut self, id: TypeId) {
         self.0.types.get_mut(id).name = Some(format!("named{}", id.index()));
+        // the hidden function-entry types a builder left behind (they show up
+        // in iter, not in find) can be deleted like any other type
+        let hidden: Vec<TypeId> = self
+            .0
+            .types
+            .iter()
+            .filter(|t| t.params().is_empty() && self.0.types.find(t.params(), t.results()) != Some(t.id()))
+            .map(|t| t.id())
+            .collect();
+        if let Some(h) = hidden.first().copied() {
+            self.0.types.delete(h);
+            assert!(
+                !self.0.types.iter().any(|t| t.id() == h),
+                "a deleted function-entry type is still yielded by ModuleTypes::iter"
+            );
+        }
     }
     fn aux_add(&mut self, v: &Self::Val) -> Option<TypeId> {
         // creating a builder adds the signature and a hidden entry type
